@@ -74,7 +74,7 @@ def main():
                 print(mid, 'DOES NOT APPLY (%d matches)' % s.count(old), flush=True)
                 continue
             open(os.path.join(wt, fn), 'w').write(s.replace(old, new))
-            env = dict(os.environ, VERIF_REPO=wt, VERIF_REPLAY_DIR=tmp + '/replays')
+            env = dict(os.environ, VERIF_REPO=wt, VERIF_REPLAY_DIR=tmp + '/replays', VERIF_SHRINK_BUDGET='0')
             p = subprocess.run([os.path.join(HERE, 'check'), pid, '--no-evidence'], capture_output=True, text=True, env=env, cwd=HERE)
             subs = sorted(set(re.findall(r'^violation in %s/(\w+):' % pid, p.stdout, re.M)))
             results[mid] = {'property': pid, 'applies': True, 'rc': p.returncode, 'killed': p.returncode == 1, 'subs': subs,
